@@ -254,3 +254,37 @@ parse_phase_numpydoc = Contract(
     canaries=["intermediate_repr['doc'] == ''"],
 )
 CONTRACTS.append(parse_phase_numpydoc)
+
+# ------------------------------------------------------------------------------------------- _parse_phase_numpydoc_and_google, Google half
+def _ggl_case(name, params, returns=(), assume=()):
+    from doctrans.docstring_parsers import Style
+
+    return Case(name, {"intermediate_repr": ("dict", {"name": None, "type": ("lit", "static"), "doc": ("lit", ""), "params": ("dict", {}), "returns": None}),
+                       "scanned": ("dict", {"doc": "str", "Args:": ("list", [("list", [p]) for p in params]), "Returns:": ("list", list(returns))}),
+                       "default_search_announce": None, "infer_type": False, "word_wrap": False, "style": ("lit", Style.google),
+                       "arg_tokens": ("lit", ("Args:",)), "return_tokens": ("lit", ("Returns:",)), "emit_default_prop": True, "emit_default_doc": True},
+                assume=list(assume))
+
+
+_GG_L = "scanned['Args:'][0][0]"
+_GG_OL = "old_scanned['Args:'][0][0]"
+_GG_X = "intermediate_repr['params']['x']"
+parse_phase_numpydoc.cases.append(_ggl_case("google,one-param", [_line("  x (", "str", "): ", "str")], ))
+parse_phase_numpydoc.cases.append(_ggl_case("google,second-without-prose", [_line("  x (int): ", "str"), _line("  y (", "str", "): ")]))
+parse_phase_numpydoc.cases[-1].tier = "thorough"  # ~280 return paths, 80 s: part of the thorough tier only (the bounded round trip decides the same change in the quick tier)
+parse_phase_numpydoc.ensures += [
+    Clause("GGL-both", "list(intermediate_repr['params'].keys()) == ['x', 'y']", when=["google,second-without-prose"],
+           note="C01 (Google): a typed parameter without prose ('  y (T): ') is a parameter like any other - it neither ends the list nor swallows the ones after it (seed C01-5)"),
+    Clause("GGL-summary-2", "intermediate_repr['doc'] == old_scanned['doc']", when=["google,second-without-prose"], note="and its line is not appended to the summary"),
+    Clause("GGL-names", "list(intermediate_repr['params'].keys()) == ['x']", when=["google,one-param"], note="C01 (Google): one parameter per 'name (type): prose' line, named as written"),
+    Clause("GGL-summary", "intermediate_repr['doc'] == old_scanned['doc']", when=["google,one-param"]),
+    Clause("GGL-returns-none", "intermediate_repr['returns'] is None", when=["google,one-param"]),
+    Clause("GGL-typ", "('typ' in %s) == False or %s['typ'][:9] == 'Optional[' or %s['typ'][:6] == 'Union[' or %s['typ'][:8] == 'Literal[' or %s.startswith('  x (' + %s['typ'] + '): ')"
+                      % (_GG_X, _GG_X, _GG_X, _GG_X, _GG_OL, _GG_X), when=["google,one-param"],
+           note="C01 (Google): the type is the text between the parentheses, verbatim (unless it is rewritten to Optional[...] / Union[...] / Literal[...] by the documented conventions)"),
+    Clause("GGL-typ-kept", "'typ' in %s or ('default' in %s and typeis(%s['default'], 'str'))" % (_GG_X, _GG_X, _GG_X), when=["google,one-param"],
+           note="a written type is dropped only by the C-typdrop finding"),
+    Clause("GGL-prose-part", "('doc' in %s) == False or (%s['doc'] in %s)" % (_GG_X, _GG_X, _GG_OL), when=["google,one-param"], note="the prose is a part of the line: nothing is added to it"),
+]
+parse_phase_numpydoc.note += (".  Google cases: 'Args:' lines with the literal skeleton '  x (<type>): <prose>'; the line is walked character by character for its first colon - "
+                              "decided on the literal skeleton for a type text without a colon (structstr.py)")
